@@ -16,6 +16,7 @@ args = [a for a in sys.argv[1:] if a != "--own-only"]
 OUT = args[0]
 SEEDS = args[1:]
 ROOT = os.environ.get("SEEDRUN_ROOT", "/tmp/seedrun")
+SRC = os.environ.get("SEEDRUN_VERIF", "/verif")       # which state of the checks to run (default: the working tree)
 CHECKS = ["C%02d" % i for i in range(1, 19)]
 
 
@@ -28,7 +29,7 @@ def setup():
     if not os.path.exists(ROOT + "/repo"):
         sh(f"git -C /repo worktree add -f {ROOT}/repo HEAD")
     sh(f"git -C {ROOT}/repo checkout -q --detach $(git -C /repo rev-parse HEAD)")
-    sh(f"rsync -a --delete --exclude .git --exclude replays --exclude evidence /verif/ {ROOT}/verif/")
+    sh(f"rsync -a --delete --exclude .git --exclude replays --exclude evidence {SRC}/ {ROOT}/verif/")
     os.makedirs(ROOT + "/verif/evidence", exist_ok=True)
 
 
